@@ -122,6 +122,8 @@ func (w *widthTaint) labeled(fn *ssa.Function, v ssa.Value) bool {
 
 func checkC18(c *Ctx) Meta {
 	c.Rule("C18-WIDTH", "a minimal-length big-endian integer ((*big.Int).Bytes()) never reaches a fixed-offset copy or an append into a serialisation / HMAC buffer without left-padding (pad helper, FillBytes, or an offset computed from len of the very value)", 6)
+	c.Rule("C18-DEPTH", "Child refuses to derive below depth 255 for every kind of parent key: the construction of the child lies behind the depth != 255 edge", 1)
+	checkChildDepthGate(c)
 	c.Rule("C18-PAD", "the pad helpers right-align: the destination offset or pad count is size - len(src)", 2)
 
 	w := &widthTaint{scope: map[*ssa.Function]bool{}, param: map[*ssa.Parameter]bool{}, field: map[string]bool{}, returns: map[*ssa.Function]bool{}, padders: map[*ssa.Function]bool{}, memo: map[ssa.Value]bool{}, onStack: map[ssa.Value]bool{}}
@@ -405,6 +407,9 @@ func checkC18(c *Ctx) Meta {
 	c.Rule("C18-TABLE", "the shared big.Int constants and tables (checksum masks, shift values) are never written: no in-place big.Int operation has a package-level value or an element of a package-level table as its receiver — a mutated mask makes the mnemonic round trip work once per process and fail afterwards", 1)
 	checkTablesNotMutated(c, "C18-TABLE")
 	c.Rule("C18-BRANCHKEY", "the key a wallet address signs with is the BIP32 child of its own branch: at unlock each entry's private key is Child(index) of the branch key selected by the entry's recorded branch (external test selects the external branch key), the C05-BIND rule — otherwise an internal address gets the key of path …/0/i instead of …/1/i and no longer matches its public key", 1)
+	// …and on import every address is re-derived from the key of its own branch (the C01/C06 import-loop
+	// rule): otherwise the imported wallet's addresses are not the BIP32 children their paths name
+	checkImportLoopPolarity(c, "C18-BRANCHKEY")
 	checkRederiveOwnPath(c, "C18-BRANCHKEY")
 	if f := c.Fn("poc/wallet/keystore", "(*AddrManager).nextAddresses"); f != nil {
 		checkPersistOwnPath(c, f, "C18-BRANCHKEY") // and the public key is stored under its own (branch, index), so a reload reports the path the key was derived on
